@@ -46,6 +46,19 @@ func NewDiscoveryService(
 	}
 }
 
+// NewRegistryConfig maps the model_registry section of the configuration file onto what the
+// registry factory takes. The routing strategy has to be part of it: a registry built without one
+// falls back to strict routing, whatever the file says.
+func NewRegistryConfig(cfg *config.ModelRegistryConfig, discoveryService registry.DiscoveryService) registry.RegistryConfig {
+	return registry.RegistryConfig{
+		Type:            cfg.Type,
+		EnableUnifier:   cfg.EnableUnifier,
+		UnificationConf: &cfg.Unification,
+		RoutingStrategy: &cfg.RoutingStrategy,
+		Discovery:       discoveryService,
+	}
+}
+
 // Name returns the service name
 func (s *DiscoveryService) Name() string {
 	return "discovery"
@@ -68,11 +81,7 @@ func (s *DiscoveryService) Start(ctx context.Context) error {
 		// Fallback to default if no config provided
 		s.registry = registry.NewMemoryModelRegistry(s.logger)
 	} else {
-		registryConfig := registry.RegistryConfig{
-			Type:            s.registryConfig.Type,
-			EnableUnifier:   s.registryConfig.EnableUnifier,
-			UnificationConf: &s.registryConfig.Unification,
-		}
+		registryConfig := NewRegistryConfig(s.registryConfig, s)
 		var err error
 		s.registry, err = registry.NewModelRegistry(registryConfig, s.logger)
 		if err != nil {
